@@ -1185,8 +1185,14 @@ void NifFile::TrimTexturePaths() {
 		std::smatch match;
 		std::regex pattern(R"(^(?!textures\\)[\s\S]*?\\textures\\)", std::regex_constants::icase);
 	
-		if (std::regex_search(tex, match, pattern))
+		// Without a "textures\" prefix being added afterwards (OB), a second "\textures\" further
+		// down the path would be stripped by the next clean-up, so strip until none is left
+		const bool addsTexturesPrefix = !hdr.GetVersion().IsOB() && !hdr.GetVersion().IsSpecial();
+		while (std::regex_search(tex, match, pattern)) {
 			tex = tex.substr(match[0].length()); // Remove matched string
+			if (addsTexturesPrefix)
+				break;
+		}
 
 		// Remove all backslashes from the front
 		tex = std::regex_replace(tex, std::regex("^\\\\+"), "");
